@@ -24,10 +24,10 @@ CHECKS = {
    technique="bounded symbolic model checking of the compiled code (Kani/CBMC + CaDiCaL): inductive step from an arbitrary forest satisfying the depth invariant (hooked raw constructor)",
    text="From an arbitrary parent/size array satisfying J (forest, sz[root] = cardinality, depth <= log2 size) one un/par/check/size with arbitrary arguments: return value, resulting partition, representatives, and J again; reset (grow/shrink/zero), clone and new as base cases. n <= 4/5 (quick), 6 (thorough).",
    note="Trusted: Kani/CBMC/CaDiCaL; hooks DSU::verif_raw / verif_from_raw; J is the invariant (inductive: base + step are both checked)."),
- "C06": dict(engine="kani", design="DESIGN.md#c06",
+ "C06": dict(engine="kani+mirsym", design="DESIGN.md#c06",
    technique="bounded symbolic model checking of the compiled code (Kani/CBMC + CaDiCaL), one instantiation per modulus; all operands symbolic",
    text="Per modulus (small primes/composites, powers of two, both competition primes, 2^31-2, 2^31-1): new(v) for every i64, + - neg * and assigning forms against division-free/shared-term specifications, inverse and division for every unit (windows at large moduli), pow against the naive product and against a Fermat-reduced reference for every 64-bit exponent at small primes.",
-   note="Trusted: Kani/CBMC/CaDiCaL. 'All moduli' is claimed only per listed modulus here; Readable/Display are outside."),
+   note="Trusted: Kani/CBMC/CaDiCaL. new,+,-,neg,*,assigning forms,==,Readable,Writable are additionally decided for EVERY modulus 2<=M<2^31 on the MIR with a symbolic modulus (z3); inv,/ and pow per listed modulus only; Display outside."),
  "C07": dict(engine="kani", design="DESIGN.md#c07",
    technique="bounded symbolic model checking of the compiled code (Kani/CBMC + CaDiCaL): symbolic fractions, cross-multiplication in a wider type",
    text="For T in {i8,i16,i64} (+ i32,i128 thorough) and all fractions with bounded components and denominators of either sign: every operator form returns the exact value in lowest terms with a positive denominator, cmp is the numeric order and consistent with ==, equal values hash identically, floor/ceil are exact.",
@@ -52,10 +52,10 @@ CHECKS = {
    technique="symbolic execution of the MIR of rlib_sieve with the limit enumerated and the query arguments symbolic (z3)",
    text="For every limit N <= 64 (quick) / 300 (thorough) Sieve::new(N) is executed on its MIR; then for symbolic n (and d) the solver decides that the table entry is the least prime factor, primality flags agree, and factorize(n) yields increasing primes whose powers multiply to n, for every n <= N at once; the prime list is compared with trial division.",
    note="Trusted: MIR dump; mirsym interpreter + Vec/Range models (every counterexample replayed natively); z3. Limits above 300 outside."),
- "C14": dict(engine="kani", design="DESIGN.md#c14",
+ "C14": dict(engine="kani+mirsym", design="DESIGN.md#c14",
    technique="bounded symbolic model checking of the compiled code (Kani/CBMC + CaDiCaL): symbolic bounds x raw output; existential claims as cover goals over all 2^64 seeds",
    text="Every integer type and range form: draw inside the range for every raw output, every value reachable (Skolem witness); f64 half-open range for all finite bounds; shuffle is a permutation for every seed, every arrangement of 3 and 4 elements reachable by some seed, small-range draws not periodic (cover goals that must be satisfiable).",
-   note="Trusted: Kani/CBMC/CaDiCaL incl. CBMC's IEEE double semantics. Near-equal frequency and seed determinism (two multiplier chains: SAT-hard) are not decided."),
+   note="Trusted: Kani/CBMC/CaDiCaL incl. CBMC's IEEE double semantics. Near-equal frequency is not decided. Seed determinism is decided on the MIR of rlib_rand with z3 (under CBMC it needs two multiplier chains proved equal: no verdict)."),
  "C15": dict(engine="kani", design="DESIGN.md#c15",
    technique="bounded symbolic model checking of the compiled code (Kani/CBMC + CaDiCaL): masks with bounded popcount at symbolic positions, all widths; symbolic sequences",
    text="Sub/supermask iteration at all 12 integer types for masks with popcount <= 4 at arbitrary positions: first, last, strict unsigned order, containment and count; next_permutation as the lexicographic successor with minimality over a symbolic competitor (length <= 6, 3 letters); iter_permutations; grid neighbours for all n,m <= 2^62.",
